@@ -107,7 +107,8 @@ def run(ctx):
         "Coq 8.16.1 kernel (coqc; vm_compute for the table obligation and the Examples; no native_compute)",
         "axioms: none (Print Assumptions of every theorem of Props/C01.v: Closed under the global context)",
         "extraction: ExtrOcamlBasic only; OCaml 4.13.1; ocaml/common.ml + ocaml/lex_main.ml (printing of tokens / metas)",
-        "translator harness/cmd/trans/lex_tokens.go (token constants and keywords map -> Gen/Tokens.v)",
+        "translators harness/cmd/trans/lex_tokens.go (token constants, keywords map -> Gen/Tokens.v), lex_classes.go (character classes and "
+        "loop conditions -> Gen/LexClasses.v), lex_ops.go (the NextToken switch -> Gen/LexOps.v)",
         "harness/cmd/implrun/lex.go (drives lexer.NextToken, parser.New/NextToken/PeekToken, the three Parse entry points; "
         "computes the raw-byte position table of the oracle with Go's own []rune(string) decoding)",
         "modelled not verified: Model/Lex.v and Model/Pump.v are hand transcriptions of lexer/lexer.go, lexer/reader.go and "
